@@ -48,7 +48,7 @@ def get_facts(tier="quick", variant="main"):
         os.replace(tmp, p)
         # keep the cache small
         ents = sorted(glob.glob(os.path.join(util.CACHE, "facts", "*.pkl")), key=os.path.getmtime)
-        for old in ents[:-6]:
+        for old in ents[:-10]:
             os.unlink(old)
         return fx
 
@@ -59,7 +59,11 @@ def build_facts(tier, variant):
     out = os.path.join(util.WORK, "expanded")
     shutil.rmtree(out, ignore_errors=True)
     os.makedirs(out)
-    crates = corpus.assemble(util.REPO, ws, include_examples=True, witness_dirs=witness_dirs(tier))
+    permute = None
+    if variant.startswith("perm:"):
+        spec = variant[5:]
+        permute = ("swap", int(spec[4:])) if spec.startswith("swap") else spec
+    crates = corpus.assemble(util.REPO, ws, include_examples=True, witness_dirs=witness_dirs(tier), permute=permute)
     names = sorted(set(c.name for c in crates if getattr(c, "indexed", True) and not getattr(c, "expect_fail", False)))
     all_names = sorted(set(c.name for c in crates))
     # force rebuild of the crates under analysis (cargo's freshness cache would skip the wrapper)
